@@ -7,8 +7,9 @@ from vlib import ref_ig, ref_fa, gen_fa
 ID = "C17"
 RULE = ("case = list of reduced-form rules (end / production / consumption / duplication) over <=4 non-terminals "
         "(S always the start; the library's reserved product names S and T included in some cases), <=2 index symbols, "
-        "<=8 rules, possibly with a duplicated rule, a permutation of the list, and a small regular operand (regex a, b, "
-        "$, 'a b' or an automaton with <=2 states). is_empty() must equal the reference function-table fixpoint for "
+        "<=8 rules (one non-small case in three is built around push / duplicate / both copies consume the pushed index, "
+        "up to 5 non-terminals; one small case in four holds both orders of one duplication), possibly with a duplicated rule, a permutation of the list, and a small regular operand (regex a, b, "
+        "$, 'a b', 'b a' or an automaton with <=2 states). is_empty() must equal the reference function-table fixpoint for "
         "optim 0..8 on the given order and on the permutation, on a second call of the same object and "
         "after remove_useless_rules(); for grammars with <=4 rules intersection(r).is_empty() and (g & r) must equal "
         "the emptiness of the reference product grammar. The reference is cross-checked in every case by a bounded "
@@ -25,20 +26,31 @@ BUDGET = {"quick": 250, "thorough": 3000}
 WATCHDOG = 20
 MAX_INCONCLUSIVE = {"quick": 4, "thorough": 60}
 
-REGEXES = ["a", "b", "$", "a b"]
+REGEXES = ["a", "b", "$", "a b", "b a"]
 
 
 @st.composite
 def case_strategy(draw):
     reserved = draw(st.integers(0, 4)) == 0
+    mirrored = False
     small = draw(st.integers(0, 3)) == 0
     if not small and draw(st.integers(0, 2)) == 0:
         rules = draw(ref_ig.ig_rules_skeleton(reserved=reserved))
+    elif small and draw(st.integers(0, 3)) == 0:
+        # both orders of one duplication plus two end rules: the word order, which only the regular operand sees
+        x = draw(st.sampled_from(["S", "S", "S", "A"]))
+        y, z = draw(st.sampled_from([("A", "B"), ("A", "B"), ("B", "A"), ("S", "A"), ("A", "A")]))
+        ends = [["end", y, draw(st.sampled_from(["a", "b"]))], ["end", z, draw(st.sampled_from(["b", "a"]))]]
+        rules = list(draw(st.permutations([["dup", x, y, z], ["dup", x, z, y]] + ends)))
+        rules = [r for i, r in enumerate(rules) if r not in rules[:i]]
+        mirrored = True
     else:
         rules = draw(ref_ig.ig_rules(max_rules=4 if small else 8, max_nt=3 if small else 4, reserved=reserved))
     perm = draw(st.permutations(list(range(len(rules)))))
     dup = draw(st.integers(0, len(rules))) if draw(st.integers(0, 3)) == 0 else None
-    if draw(st.booleans()):
+    if mirrored and draw(st.booleans()):
+        reg = {"kind": "regex", "text": draw(st.sampled_from(["a b", "b a"]))}
+    elif draw(st.booleans()):
         reg = {"kind": "regex", "text": draw(st.sampled_from(REGEXES))}
     else:
         reg = {"kind": "fa", "fa": draw(gen_fa.fa_desc(max_states=2, max_trans=4, state_pools=["int", "str"],
@@ -124,6 +136,9 @@ def run_case(case):
         else:
             continue
         break
+    dups = [r for r in rules if r[0] == "dup"]
+    if any(r[2] != r[3] and ["dup", r[1], r[3], r[2]] in dups for r in dups):
+        labels.append("mirrored_duplications")
     if "T" in {x for r in rules for x in r[1:]}:
         labels.append("reserved_names")
     return {"failures": failures, "labels": labels, "nontrivial": len(kinds) >= 3 and "cons" in kinds}
